@@ -2,7 +2,7 @@ SPECIFICATION Spec
 CONSTANTS
  EopmLocalPerCall = FALSE  PickyAcceptsZero = FALSE  AutoFinishAll = TRUE
  MemDictLimbHi = 752
- ChunkSizes = {0, 1}  Profile = "quick"
+ ChunkSizes = {0, 1}  Profile = "quick"  Sweep = "small"
  Formats = {"lzip"}
 INVARIANTS MeetsContract NeverUnspecified StopsAtFirstStream Bounded
 CHECK_DEADLOCK FALSE
